@@ -561,6 +561,33 @@ def judge_import(chk, job, out, prefix="cache"):
         chk.nontrivial.add(f"import-{job[1]}")
 
 
+def task_after_wide_case(job):
+    """a task run for a narrow selection served from the cache of a wider generate-only run vs the same task run with an empty build
+    directory: exit status and every spawned process (ninja argv, task commands with cwd and exports) must be the same"""
+    from . import c16
+    seed, i = job
+    sc = c16.gen_scenario(seed + 4000, i)
+    inv = sc["invocations"][0]
+    wide = {"args": {k: v for k, v in inv["args"].items() if k in ("select", "disable", "define")}, "flags": {"generate_only": True}}
+    out = {}
+    for mode in ("warm", "cold"):
+        s = clirun.Scenario(sc["project"])
+        try:
+            if mode == "warm":
+                r0 = s.invoke(wide)
+                out["wide_rc"] = r0["rc"]
+            r = s.invoke(inv)
+            out[mode] = {"rc": r["rc"], "spawns": [clirun.norm_spawn(l).replace(s.root, "<root>") for l in r["spawns"]], "hit": r["cache_hit"],
+                         "stderr": r["stderr"][-200:]}
+        finally:
+            s.close()
+    return (job, sc, out)
+
+
+def task_worker(jobs):
+    return [task_after_wide_case(j) for j in jobs]
+
+
 def run(chk):
     n, maxlen = (120, 5) if chk.tier == "quick" else (1500, 8)
     chk.rule = ("histories over {run(args), run killed at one of 10 fault points, failing run (unknown builder/app), edit / touch of a loaded "
@@ -573,6 +600,15 @@ def run(chk):
         [gen_nearmiss(chk.seed, i) for i in range(40 if chk.tier == "quick" else 800)]
     for sc, res in common.parallel_map(worker, scs):
         judge(chk, sc, res)
+    for job, sc, out in common.parallel_map(task_worker, [(chk.seed, i) for i in range(60 if chk.tier == "quick" else 1200)]):
+        chk.evaluations += 1
+        w, c = out["warm"], out["cold"]
+        chk.count("task-after-wide-run:" + ("hit" if w["hit"] else "miss"))
+        if w["hit"] and (w["rc"] != c["rc"] or w["spawns"] != c["spawns"]):
+            chk.fail_oracle("cache:task-run-differs-from-cold", f"{sc['invocations'][0]}: served from a wider run's cache: rc {w['rc']} spawns {w['spawns'][:4]}; "
+                            f"with an empty build directory: rc {c['rc']} spawns {c['spawns'][:4]}", {"task_case": list(job), "scenario": sc})
+        elif w["hit"]:
+            chk.nontrivial.add(f"task-{job[1]}")
     for job, out in common.parallel_map(import_worker, [(chk.seed, i) for i in range(10 if chk.tier == "quick" else 200)]):
         judge_import(chk, job, out)
     chk.assumptions = ["stamps are (len, mtime): every edit of the harness changes mtime", "kill = _exit at a hook point (unflushed buffers lost); power loss / fsync ordering not modelled",
